@@ -346,9 +346,18 @@ func (e *Engine) walkFieldStoresAt(a *ssa.Alloc, at ssa.Instruction, f func(ssa.
 		// arrays backing variadic slices: new [n]T; &t[i]; *addr = v
 		if ia, ok := r.(*ssa.IndexAddr); ok {
 			for _, rr := range *ia.Referrers() {
-				if st, ok := rr.(*ssa.Store); ok && st.Addr == ia {
+				if st, ok := rr.(*ssa.Store); ok && st.Addr == ia && !after(at, st) {
 					f(st.Val)
 					n++
+				}
+				// &t[i].F = v for struct elements
+				if fa, ok := rr.(*ssa.FieldAddr); ok {
+					for _, r3 := range *fa.Referrers() {
+						if st, ok := r3.(*ssa.Store); ok && st.Addr == fa && !after(at, st) {
+							f(st.Val)
+							n++
+						}
+					}
 				}
 			}
 		}
